@@ -28,7 +28,7 @@ TABLE = {
     'C14': ('§6 C14', True, 'character-level round trip: every tree with valid names and CR-free non-empty character data reads back from its serialisation as exactly itself (model lexer + tree builder); token-level round trip for any tree; escaping round trips; envelope invariant (running-order element count, message ID, at most one completion record) along every history; the running-order ID is kept by messages addressed to it', 'that ElementTree\'s parser reads the serialiser\'s output as the model\'s lexer does, and that str(ro) is byte for byte the model\'s serialisation: compared at every explored state; one open known finding (U+000D in character data, stdlib serialiser)'),
     'C15': ('§6 C15', False, 'on running orders whose stories/items have IDs and whose optional data is numeric/parseable, no accessor of the model raises; stories/items are listed in document order; every item field incl. the note (first studioCommand type=note at any depth) agrees with the document; absent data is None; the check also demands the C16 and C17 specifications (timing, script and body are read accessors too)', ''),
     'C16': ('§6 C16', False, 'duration precedence, running-order duration = sum, offsets = prefix sums by position (repeated story IDs or not), start/end derivations incl. zone designators, over exact microseconds (decimal durations with up to six decimals); the code\'s element-keyed offset dictionary equals the positional table whenever no story element occurs twice (C16_offsets_by_element, tied to C13\'s separation), and differs otherwise (counterexample theorem)', ''),
-    'C17': ('§6 C17', False, 'body = paragraphs and items in document order; script = stripped non-empty non-bracketed paragraphs in order; running-order script/body = concatenation over stories', ''),
+    'C17': ('§6 C17', False, 'body = paragraphs and items in document order; script = stripped non-empty non-bracketed paragraphs in order; running-order script/body = concatenation over stories - for every document that has a roCreate, whatever its timing metadata, IDs and slugs (C17_text_any)', ''),
     'C18': ('§6 C18', True, 'paginated listing returns every key with the suffix across all pages (no empty page before a non-empty one); reader metadata is that of the restored object', 'real file I/O, bytes decoding, boto3 protocol: differential execution through an injected fake client'),
     'C19': ('§6 C19', True, 'detect output is the per-file map of the library classification (order preserved, one bad file cannot affect another line); merge output is the serialisation of the library merge; exit codes (an outfile that cannot be opened, and no input at all, are status 2)', 'argparse, real stdout/stderr, file writing: differential execution of mosromgr.cli.main in-process'),
     'C20': ('§6 C20', False, 'exposed sources are exactly the IDs at the schema position, one element per ID, in order; a blank target is exposed as None; inspect lines are total on shaped messages and on running-order documents (whatever their timing metadata) and mention every source / carried / listed story ID', ''),
